@@ -5,6 +5,7 @@ package c11
 
 import (
 	"context"
+	"errors"
 	"fmt"
 	"sort"
 	"testing"
@@ -92,7 +93,7 @@ func want(c *Case, ci, k int) ann {
 func check(c Case) error {
 	ds := c.BuildDS()
 	var opts []annotate.Option
-	opts = append(opts, annotate.Threshold(time.Duration(c.Eps)*time.Second))
+	opts = append(opts, annotate.Threshold(time.Duration(c.Eps)*c.Unit()))
 	if c.IgnoreInconsistency {
 		opts = append(opts, annotate.IgnoreInconsistency(true))
 	}
@@ -130,6 +131,16 @@ func check(c Case) error {
 		} else {
 			err = annotate.Relations(context.Background(), rels, ds, opts...)
 		}
+	}
+
+	// An injected data source failure must surface as an error. If the call
+	// returns something else the case is judged as usual: a child whose history
+	// exists is expected to be annotated, so a swallowed failure shows up below.
+	if errors.Is(err, histgen.ErrBackend) {
+		if ds.Fail == nil {
+			return harness.Failf("C11/unexpected-error", "backend error without an injected fault: %v", err)
+		}
+		return nil
 	}
 
 	// ---- expectations from the ground-truth timeline
@@ -320,7 +331,7 @@ func check(c Case) error {
 			if !judgedIdx[u.Index] {
 				continue
 			}
-			at := int(u.Timestamp.Sub(c.Base()) / time.Second)
+			at := int(u.Timestamp.Sub(c.Base()) / c.Unit())
 			if !u.Timestamp.Equal(c.Time(at)) {
 				return harness.Failf("C11/update-timestamp", "update %+v is not stamped with a commit time / timestamp of the timeline", u)
 			}
@@ -385,7 +396,7 @@ func check(c Case) error {
 			if tt < p.At || tt >= next(pi) {
 				continue
 			}
-			for _, half := range []time.Duration{0, 500 * time.Millisecond} {
+			for _, half := range []time.Duration{0, c.Unit() / 2} {
 				cp := cloneParent(par)
 				if err := applyUpTo(cp, c.Time(tt).Add(half)); err != nil {
 					return harness.Failf("C11/apply-error", "ApplyUpdatesUpTo failed on annotated parent: %v", err)
@@ -436,6 +447,9 @@ func classify(c Case) (bool, []string) {
 				anyErr = true
 			}
 		}
+	}
+	if c.FailChild > 0 && !c.Children[c.FailChild-1].Missing {
+		cl = append(cl, "datasource-fault")
 	}
 	tie, fwd, repeated, delParent := false, false, false, false
 	for pi, p := range c.Parents {
@@ -498,8 +512,8 @@ func describe(c Case) any {
 func TestCommitRegime(t *testing.T) {
 	harness.Run(t, harness.Spec[Case]{
 		Name: "commit-regime", N: 12000,
-		Rule:     "ground-truth timelines with commit times: 1..5 parent versions (ways with node children, or route relations with node/way/relation members) with non-decreasing commit instants, ties, version gaps, deleted parent versions; 1..5 children with 1..8 versions each, frequent same-second clusters, deletions/undeletions, missing histories, children repeated within a parent and entering/leaving it; histories handed over in shuffled order, plain or ...AsChildren data sources; options IgnoreInconsistency, IgnoreMissingChildren, every threshold, ChildFilter with pre-annotated references; oracle from the timeline: annotated version/changeset/location == state(child, T_i); updates == later visible versions with commit time in (T_i, T_{i+1}) (versions tying with T_{i+1} optional), stamped with commit times, way-member Reverse flags; ApplyUpdatesUpTo(t) on a copy == state(child, t) for every t on the timeline and half-second off it; deleted parents untouched; typed errors naming an inconsistent child; non-trivial = a child edit strictly between two parent versions, or an error case",
-		Gen:      func(t *rapid.T) Case { return histgen.Gen(t, histgen.Opts{Regime: histgen.Commit}) },
+		Rule:     "ground-truth timelines with commit times: 1..5 parent versions (ways with node children, or route relations with node/way/relation members) with non-decreasing commit instants, ties, version gaps, deleted parent versions; 1..5 children with 1..8 versions each, frequent same-instant clusters, time unit 1 s or - half of the cases - 250/100 ms so that instants differ within one wall-clock second, deletions/undeletions, missing histories, children repeated within a parent and entering/leaving it; histories handed over in shuffled order, plain or ...AsChildren data sources; options IgnoreInconsistency, IgnoreMissingChildren, every threshold, ChildFilter with pre-annotated references; one case in eight injects a data source failure (not a not-found error) for one child: the call must return it, or else the result is judged as usual; oracle from the timeline: annotated version/changeset/location == state(child, T_i); updates == later visible versions with commit time in (T_i, T_{i+1}) (versions tying with T_{i+1} optional), stamped with commit times, way-member Reverse flags; ApplyUpdatesUpTo(t) on a copy == state(child, t) for every t on the timeline and half-second off it; deleted parents untouched; typed errors naming an inconsistent child; non-trivial = a child edit strictly between two parent versions, or an error case",
+		Gen:      func(t *rapid.T) Case { return histgen.Gen(t, histgen.Opts{Regime: histgen.Commit, Faults: true}) },
 		Check:    check,
 		Classify: classify,
 		Describe: describe,
@@ -511,7 +525,7 @@ func TestPreCommitRegime(t *testing.T) {
 	harness.Run(t, harness.Spec[Case]{
 		Name: "pre-commit-regime", N: 8000,
 		Rule:     "timelines without commit info (2010 timestamps, or - one case in three - 2015 timestamps still lacking commit info): threshold eps in {1,2,5,60,1800,7200} s, parent versions spaced > 2*eps, per (parent, child) at most one child version inside [T-eps, T+eps]: backward (any changeset), forward in the parent's changeset (belongs to the parent version), or after in another changeset (stays an update); all other versions outside every window; oracle: annotated state = latest version with effective time <= T_i, updates = versions with effective time in (T_i, T_{i+1}-eps) stamped with their timestamps, time travel for every t in that interval; non-trivial = a child edit between two parent versions",
-		Gen:      func(t *rapid.T) Case { return histgen.Gen(t, histgen.Opts{Regime: histgen.Pre}) },
+		Gen:      func(t *rapid.T) Case { return histgen.Gen(t, histgen.Opts{Regime: histgen.Pre, Faults: true}) },
 		Check:    check,
 		Classify: classify,
 		Describe: describe,
@@ -523,7 +537,7 @@ func TestPreCommitRegime(t *testing.T) {
 
 func annotateParents(c *Case, only int) ([]any, error) {
 	ds := c.BuildDS()
-	opts := []annotate.Option{annotate.Threshold(time.Duration(c.Eps) * time.Second)}
+	opts := []annotate.Option{annotate.Threshold(time.Duration(c.Eps) * c.Unit())}
 	var parents []any
 	var err error
 	if c.ParentIsWay {
